@@ -1557,6 +1557,227 @@ theorem mem_acceptedStrings (c : Coll) (hwf : wf c = true) (n : CName) :
   · intro h
     exact ⟨splitOnDot n, h, joinDot_splitOnDot n⟩
 
+/-! ### primary names are pairwise distinct -/
+
+theorem nodup_map_of_inj_on {α β : Type} (f : α → β) (l : List α)
+    (hinj : ∀ x ∈ l, ∀ y ∈ l, f x = f y → x = y) (h : l.Nodup) : (l.map f).Nodup := by
+  induction l with
+  | nil => simp
+  | cons a tl ih =>
+    rw [List.nodup_cons] at h
+    rw [List.map_cons, List.nodup_cons]
+    refine ⟨?_, ih (fun x hx y hy => hinj x (List.mem_cons_of_mem _ hx) y (List.mem_cons_of_mem _ hy)) h.2⟩
+    intro hm
+    obtain ⟨b, hb, hfb⟩ := List.mem_map.mp hm
+    have := hinj b (List.mem_cons_of_mem _ hb) a (by simp) hfb
+    subst this
+    exact h.1 hb
+
+/-- two names normalised for the sub-collection that the parent's normalisation maps to the same
+    name are the same name (normalisation is last-wins in both directions) -/
+theorem map_transform_inj (a s : Bool) : ∀ (q₁ q₂ : List CName),
+    (∀ x ∈ q₁, transform s x = x) → (∀ y ∈ q₂, transform s y = y) →
+    q₁.map (transform a) = q₂.map (transform a) → q₁ = q₂ := by
+  intro q₁
+  induction q₁ with
+  | nil => intro q₂ _ _ h; cases q₂ with | nil => rfl | cons y r => simp at h
+  | cons x r ih =>
+    intro q₂ h₁ h₂ h
+    cases q₂ with
+    | nil => simp at h
+    | cons y r' =>
+      simp only [List.map_cons, List.cons.injEq] at h
+      have hx : x = y := by
+        have e1 := h₁ x (by simp)
+        have e2 := h₂ y (by simp)
+        calc x = transform s x := e1.symm
+          _ = transform s (transform a x) := (transform_comp s a x).symm
+          _ = transform s (transform a y) := by rw [h.1]
+          _ = transform s y := transform_comp s a y
+          _ = y := e2
+      rw [hx, ih r' (fun z hz => h₁ z (List.mem_cons_of_mem _ hz)) (fun z hz => h₂ z (List.mem_cons_of_mem _ hz)) h.2]
+
+/-- the primary (CLI) names of a collection -/
+def primaries (c : Coll) : List (List CName) := (taskNames c).map (·.1)
+
+theorem primaries_mk (nm ad ts als cs dflt cfg) :
+    primaries (.mk nm ad ts als cs dflt cfg) =
+      ts.map (fun t => [t.1]) ++ cs.flatMap (fun kc => (primaries kc.2).map (subName ad kc.1)) := by
+  simp only [primaries, taskNames_mk, List.map_append, List.map_map, List.map_flatMap, kidEntries]
+  congr 1
+
+theorem mem_primaries_accepted {c : Coll} {q : List CName} (h : q ∈ primaries c) : q ∈ acceptedNames c := by
+  obtain ⟨e, he, rfl⟩ := List.mem_map.mp h
+  exact mem_acceptedNames.mpr ⟨e, he, Or.inl rfl⟩
+
+theorem primaries_ne_nil {c : Coll} {q : List CName} (h : q ∈ primaries c) : q ≠ [] := by
+  obtain ⟨e, he, rfl⟩ := List.mem_map.mp h
+  exact entry_names_ne_nil c he e.1 (by simp [entryNames])
+
+/-- C10: in a well-formed tree no two `task_names` entries have the same primary name.
+    Used from `wf`: task keys pairwise distinct, sub-collection keys pairwise distinct and normalised by
+    their collection (`transform ad k = k`), hereditarily; plus (through `accepted_canonical`) that
+    every key is normalised by its own collection, so that the parent's re-normalisation is injective. -/
+theorem primaries_nodup (c : Coll) : wf c = true → (primaries c).Nodup := by
+  induction c using ind with
+  | h nm ad ts als cs dflt cfg ih =>
+    intro hwf
+    obtain ⟨hW, hkids⟩ := (wf_mk ..).mp hwf
+    rw [primaries_mk, List.nodup_append]
+    refine ⟨?_, ?_, ?_⟩
+    · -- own tasks
+      have : ts.map (fun t => [t.1]) = (ts.map (·.1)).map (fun n => [n]) := by simp [List.map_map]
+      rw [this]
+      exact nodup_map_of_inj_on _ _ (fun x _ y _ h => by simpa using h) hW.parts.1
+    · -- sub-collections: by induction over the list of kids
+      have hcs : (cs.map (·.1)).Nodup := hW.parts.2.2.1
+      have hfix : ∀ k sub, (k, sub) ∈ cs → transform ad k = k := fun k sub hm => (kid_key hW hm).2.2.1
+      clear hW hwf
+      induction cs with
+      | nil => simp
+      | cons hd tl ihl =>
+        obtain ⟨k, sub⟩ := hd
+        simp only [List.map_cons, List.nodup_cons] at hcs
+        rw [List.flatMap_cons, List.nodup_append]
+        have hsubwf := hkids k sub (by simp)
+        refine ⟨?_, ?_, ?_⟩
+        · apply nodup_map_of_inj_on _ _ _ (ih k sub (by simp) hsubwf)
+          intro q₁ h₁ q₂ h₂ he
+          simp only [subName, List.cons.injEq] at he
+          have c₁ := accepted_canonical sub hsubwf q₁ (mem_primaries_accepted h₁)
+          have c₂ := accepted_canonical sub hsubwf q₂ (mem_primaries_accepted h₂)
+          exact map_transform_inj ad sub.autoDash q₁ q₂ (fun x hx => (c₁.2 x hx).2) (fun y hy => (c₂.2 y hy).2) he.2
+        · exact ihl (fun k' c' hm => ih k' c' (List.mem_cons_of_mem _ hm))
+            (fun k' c' hm => hkids k' c' (List.mem_cons_of_mem _ hm)) hcs.2
+            (fun k' s' hm => hfix k' s' (List.mem_cons_of_mem _ hm))
+        · -- names under different sub-collections start with different components
+          intro a ha b hb hab
+          subst hab
+          obtain ⟨q, _, rfl⟩ := List.mem_map.mp ha
+          obtain ⟨⟨k', s'⟩, hm', hb'⟩ := List.mem_flatMap.mp hb
+          obtain ⟨q', _, hq'⟩ := List.mem_map.mp hb'
+          simp only [subName, List.cons.injEq] at hq'
+          have hk := hfix k sub (by simp)
+          have hk' := hfix k' s' (List.mem_cons_of_mem _ hm')
+          rw [hk, hk'] at hq'
+          exact hcs.1 (List.mem_map.mpr ⟨(k', s'), hm', hq'.1⟩)
+    · -- a task of this collection has one component, a task below has at least two
+      intro a ha b hb hab
+      subst hab
+      obtain ⟨t, _, rfl⟩ := List.mem_map.mp ha
+      obtain ⟨⟨k, sub⟩, _, hb'⟩ := List.mem_flatMap.mp hb
+      obtain ⟨q, hq, hq'⟩ := List.mem_map.mp hb'
+      have := primaries_ne_nil hq
+      cases q with
+      | nil => exact this rfl
+      | cons y r => simp [subName] at hq'
+
+theorem Pairs.map_eq {α β γ : Type} {R : α → β → Prop} {l : List α} {m : List β} (f : α → γ) (g : β → γ)
+    (h : Pairs R l m) (hfg : ∀ a b, R a b → f a = g b) : l.map f = m.map g := by
+  induction h with
+  | nil => rfl
+  | cons hab _ ih => simp [hfg _ _ hab, ih]
+
+theorem count_eq_one_of_nodup {α : Type} [BEq α] [LawfulBEq α] (l : List α) (h : l.Nodup) (a : α) (ha : a ∈ l) :
+    l.count a = 1 := by
+  induction l with
+  | nil => cases ha
+  | cons x tl ih =>
+    rw [List.nodup_cons] at h
+    by_cases hx : x = a
+    · subst hx
+      have : tl.count x = 0 := List.count_eq_zero.mpr h.1
+      simp [this]
+    · have hat : a ∈ tl := by
+        rcases List.mem_cons.mp ha with e | e
+        · exact absurd e.symm hx
+        · exact e
+      rw [List.count_cons_of_ne hx]
+      exact ih h.2 hat
+
+/-- the dotted name under which the CLI knows a binding, and its aliases (in a tree with one
+    `auto_dash_names` setting) -/
+def Binding.cliName (b : Binding) : List CName := b.anc ++ [b.key]
+def Binding.cliAliases (b : Binding) : List (List CName) := b.aliases.map (fun a => b.anc ++ [a])
+def Binding.cli (b : Binding) : Entry := (b.cliName, b.cliAliases)
+
+/-- in a well-formed tree with one `auto_dash_names` setting the dotted binding names are, in order,
+    the primary names of `task_names` -/
+theorem bindings_names_eq_primaries (c : Coll) (hW : wf c = true) (hU : uniformDash c.autoDash c = true) :
+    (bindings c []).map Binding.cliName = primaries c := by
+  have h := bindings_match c c.autoDash hW hU []
+  exact Pairs.map_eq Binding.cliName (·.1) h (fun b e hm => by simpa [Binding.cliName] using hm.1)
+
+/-! ### the three formats carry the same (name, aliases) pairs -/
+
+/-- the declared aliases in a flat line: those with as many components as the name (a collection-name
+    shortcut has fewer) -/
+def flatDeclared (e : Entry) : Entry := (e.1, e.2.filter (fun a => a.length == e.1.length))
+
+/-- a nested task line read as dotted name and dotted aliases -/
+def NLine.cli : NLine → Entry
+  | .task anc n _ als => (anc ++ [n], als.map (fun a => anc ++ [a]))
+  | .coll anc n => (anc ++ [n], [])
+
+/-- the last component of a dotted name (what the JSON format shows) -/
+def lastComp (p : List CName) : CName := p.getLastD []
+def Entry.leaf (e : Entry) : CName × List CName := (lastComp e.1, e.2.map lastComp)
+
+theorem lastComp_concat (anc : List CName) (x : CName) : lastComp (anc ++ [x]) = x := by
+  simp [lastComp, List.getLastD_eq_getLast?]
+
+theorem flatDeclared_flat (b : Binding) : flatDeclared b.flat = b.cli := by
+  show (b.anc ++ [b.key], List.filter (fun a => a.length == (b.anc ++ [b.key]).length)
+      ((if (b.isDefault && !b.anc.isEmpty) = true then [b.anc] else []) ++ b.aliases.map (fun a => b.anc ++ [a]))) = _
+  have h1 : (if (b.isDefault && !b.anc.isEmpty) = true then [b.anc] else []).filter
+      (fun a => a.length == (b.anc ++ [b.key]).length) = [] := by
+    split <;> simp
+  have h2 : (b.aliases.map (fun a => b.anc ++ [a])).filter
+      (fun a => a.length == (b.anc ++ [b.key]).length) = b.aliases.map (fun a => b.anc ++ [a]) := by
+    apply List.filter_eq_self.mpr
+    intro a ha
+    obtain ⟨x, _, rfl⟩ := List.mem_map.mp ha
+    simp
+  rw [List.filter_append, h1, h2]; rfl
+
+theorem nested_cli (b : Binding) : b.nested.cli = b.cli := rfl
+
+theorem cli_leaf (b : Binding) : b.cli.leaf = (b.key, b.aliases) := by
+  simp only [Entry.leaf, Binding.cli, Binding.cliName, Binding.cliAliases, lastComp_concat, List.map_map]
+  congr 1
+  have : (lastComp ∘ fun a => b.anc ++ [a]) = id := by funext a; simp [lastComp_concat]
+  rw [this, List.map_id]
+
+/-- C10 `listings_agree`: for EVERY tree the flat listing (declared aliases), the task lines of the
+    nested listing and the task records of the JSON listing carry, position by position, the same
+    (dotted binding name, aliases) pairs - the JSON records their last components. -/
+theorem listings_agree_all (c : Coll) :
+    (flatPairs c []).map flatDeclared = (bindings c []).map Binding.cli ∧
+    ((nestedPairs c []).filter NLine.isTask).map NLine.cli = (bindings c []).map Binding.cli ∧
+    jsonTasks (serialized c) = ((bindings c []).map Binding.cli).map Entry.leaf := by
+  refine ⟨?_, ?_, ?_⟩
+  · rw [flat_eq_bindings, List.map_map]
+    exact List.map_congr_left (fun b _ => flatDeclared_flat b)
+  · rw [nested_eq_bindings, List.map_map]
+    exact List.map_congr_left (fun b _ => nested_cli b)
+  · rw [json_eq_bindings c [], List.map_map]
+    exact List.map_congr_left (fun b _ => (cli_leaf b).symm)
+
+/-- C10 `listing_once`: in a well-formed tree with one `auto_dash_names` setting the names shown by the
+    flat listing are exactly the primary names of `task_names`, in order, and they are pairwise
+    distinct: every task appears exactly once under its primary name. -/
+theorem flat_names_once (c : Coll) (hW : wf c = true) (hU : uniformDash c.autoDash c = true) :
+    (flatPairs c []).map (·.1) = primaries c ∧ (primaries c).Nodup ∧
+    ∀ e ∈ taskNames c, ((flatPairs c []).map (·.1)).count e.1 = 1 := by
+  have hn : (flatPairs c []).map (·.1) = primaries c := by
+    rw [flat_eq_bindings, List.map_map, ← bindings_names_eq_primaries c hW hU]
+    exact List.map_congr_left (fun b _ => rfl)
+  have hd := primaries_nodup c hW
+  refine ⟨hn, hd, ?_⟩
+  intro e he
+  rw [hn]
+  exact count_eq_one_of_nodup _ hd _ (List.mem_map.mpr ⟨e, he, rfl⟩)
+
 /-! ### the behaviour before the repairs (for the counterexample theorems) -/
 
 def shallowKeep (ours : KVs) (kv : Key × Val) : Key × Val :=
@@ -1568,6 +1789,16 @@ def shallowNew (inner : KVs) (kv : Key × Val) : Bool := (Inv.lookup kv.1 inner)
 
 /-- `dict(config, **ours)`: what `_task_with_merged_config` did before the repair (top-level keys only) -/
 def shallowMerge (inner ours : KVs) : KVs := inner.map (shallowKeep ours) ++ ours.filter (shallowNew inner)
+
+/-- the empty-name branch of `task_with_config` before the repair: `return self[self.default], ours` -
+    the task found through the default, but only THIS collection's settings -/
+def twcEmptyPinned (c : Coll) : Except LErr (Nat × KVs) :=
+  match c.default with
+  | none => .error .value
+  | some d =>
+    match c.twc (splitOnDot d) with
+    | .ok (t, _) => .ok (t, c.cfg)
+    | .error e => .error e
 
 /-- leaf at a key path of a lookup result (`none` when the lookup fails) -/
 def leafOf (r : Except LErr (Nat × KVs)) (kp : List Key) : Option Leaf :=
